@@ -249,6 +249,8 @@ type step struct {
 	slice bool    // payload is a run of records whose count is dynamic
 	n     sx.Poly // record count for slice steps
 	elem  types.Type
+	// scalar: the value decoded from a byte buffer by ByteOrder.UintN after an io.ReadFull (reader side of a scalar moved through a buffer)
+	scalar ssa.Value
 }
 
 func streamParam(fn *ssa.Function) *ssa.Parameter {
@@ -336,7 +338,23 @@ func steps(a *anchors, r *rep, rule string, fn *ssa.Function, e *sx.Env) ([]*ste
 			r.Undecide(rule, name, cpos, "stream operation on something other than the function's stream parameter "+sp.Name())
 			return nil, false
 		}
-		st := &step{op: op}
+		var scalar ssa.Value
+		switch op.Kind {
+		case sx.IOWrite:
+			if val, typ, ord, ok := writerScalar(e, op); ok {
+				cp := *op
+				cp.Kind, cp.Type, cp.Data, cp.Order, cp.OrderOK = sx.IOBinaryWrite, typ, val, ord, ord != nil
+				op = &cp
+			}
+		case sx.IOReadFull:
+			if val, typ, ord, ok := readerScalar(e, op); ok {
+				cp := *op
+				cp.Kind, cp.Type, cp.Order, cp.OrderOK = sx.IOBinaryRead, typ, ord, ord != nil
+				op = &cp
+				scalar = val
+			}
+		}
+		st := &step{op: op, scalar: scalar}
 		b, err := e.Bytes(op)
 		if err != nil {
 			r.Violate(rule, name, cpos, "payload has no fixed wire size: "+err.Error())
@@ -544,6 +562,14 @@ func codecPair(a *anchors, r *rep, w, rd *ssa.Function, stlLaw bool) {
 		}
 		// reader: the run is sized by the value read at step `found`
 		cnt := rs[found]
+		if cnt.scalar != nil {
+			if re.Int(cnt.scalar).Equal(rs[i].n) && beforeInstr(cnt.op.Call, rs[i].op.Call) {
+				r.Hold("LAY-2", kr, a.p.Pos(rs[i].op.Call.Pos()), fmt.Sprintf("records read = %s = the count decoded from the bytes of the preceding step", rs[i].n))
+			} else {
+				r.Violate("LAY-2", kr, a.p.Pos(rs[i].op.Call.Pos()), fmt.Sprintf("the run of records read has length %s, which is not the count decoded from the stream (%s)", rs[i].n, re.Int(cnt.scalar)))
+			}
+			continue
+		}
 		al, isAl := cnt.op.Data.(*ssa.Alloc)
 		if !isAl {
 			r.Undecide("LAY-2", kr, a.p.Pos(cnt.op.Call.Pos()), "count is not read into a local variable")
@@ -1555,4 +1581,119 @@ func isVectorPkgObj(o *types.Func) bool {
 		return false
 	}
 	return strings.HasPrefix(o.Pkg().Path(), "github.com/EliCDavis/vector")
+}
+
+// ---------------------------------------------------------------------------
+// scalars moved through a byte buffer (equivalent to binary.Write / binary.Read of the scalar)
+
+func byteOrderMethod(c *ssa.Call) (name string, order *ssa.Global, ok bool) {
+	o := ssaCallee(c)
+	if o == nil || o.Pkg() == nil || o.Pkg().Path() != "encoding/binary" || len(c.Call.Args) == 0 {
+		return "", nil, false
+	}
+	if ld, isLd := c.Call.Args[0].(*ssa.UnOp); isLd && ld.Op.String() == "*" {
+		if g, isG := ld.X.(*ssa.Global); isG {
+			order = g
+		}
+	}
+	return o.Name(), order, true
+}
+
+func uintWidth(suffix string) (types.Type, int64) {
+	switch suffix {
+	case "Uint16":
+		return types.Typ[types.Uint16], 2
+	case "Uint32":
+		return types.Typ[types.Uint32], 4
+	case "Uint64":
+		return types.Typ[types.Uint64], 8
+	}
+	return nil, 0
+}
+
+// writerScalar: out.Write(order.AppendUintN(empty, v)) or order.PutUintN(buf, v); out.Write(buf) with len(buf) = N/8.
+func writerScalar(e *sx.Env, op *sx.IOOp) (ssa.Value, types.Type, *ssa.Global, bool) {
+	n, isC := e.Len(op.Data).IsConst()
+	root, off := e.SliceRoot(op.Data)
+	if !off.IsZero() {
+		return nil, nil, nil, false
+	}
+	if c, ok := root.(*ssa.Call); ok {
+		name, order, ok := byteOrderMethod(c)
+		if ok && strings.HasPrefix(name, "Append") && len(c.Call.Args) == 3 {
+			typ, w := uintWidth(strings.TrimPrefix(name, "Append"))
+			if l, isZ := e.Len(c.Call.Args[1]).IsConst(); typ != nil && isZ && l == 0 {
+				_ = w
+				return c.Call.Args[2], typ, order, true
+			}
+		}
+		return nil, nil, nil, false
+	}
+	if !isC {
+		return nil, nil, nil, false
+	}
+	// PutUintN into the buffer that is written
+	var hit *ssa.Call
+	cnt := 0
+	for _, b := range e.Fn.Blocks {
+		for _, in := range b.Instrs {
+			c, ok := in.(*ssa.Call)
+			if !ok {
+				continue
+			}
+			name, _, ok := byteOrderMethod(c)
+			if !ok || !strings.HasPrefix(name, "Put") || len(c.Call.Args) != 3 {
+				continue
+			}
+			if r2, o2 := e.SliceRoot(c.Call.Args[1]); r2 == root && o2.IsZero() {
+				cnt++
+				hit = c
+			}
+		}
+	}
+	if cnt != 1 || !beforeInstr(hit, op.Call) {
+		return nil, nil, nil, false
+	}
+	name, order, _ := byteOrderMethod(hit)
+	typ, w := uintWidth(strings.TrimPrefix(name, "Put"))
+	if typ == nil || w != n {
+		return nil, nil, nil, false
+	}
+	return hit.Call.Args[2], typ, order, true
+}
+
+// readerScalar: io.ReadFull(in, buf) with len(buf) = N/8 followed by exactly one order.UintN(buf).
+func readerScalar(e *sx.Env, op *sx.IOOp) (ssa.Value, types.Type, *ssa.Global, bool) {
+	n, isC := e.Len(op.Data).IsConst()
+	root, off := e.SliceRoot(op.Data)
+	if !isC || !off.IsZero() {
+		return nil, nil, nil, false
+	}
+	var hit *ssa.Call
+	cnt := 0
+	for _, b := range e.Fn.Blocks {
+		for _, in := range b.Instrs {
+			c, ok := in.(*ssa.Call)
+			if !ok {
+				continue
+			}
+			name, _, ok := byteOrderMethod(c)
+			if !ok || !strings.HasPrefix(name, "Uint") || len(c.Call.Args) != 2 {
+				continue
+			}
+			if r2, o2 := e.SliceRoot(c.Call.Args[1]); r2 == root && o2.IsZero() {
+				cnt++
+				hit = c
+			}
+		}
+	}
+	if cnt != 1 || !beforeInstr(op.Call, hit) {
+		return nil, nil, nil, false
+	}
+	name, order, _ := byteOrderMethod(hit)
+	typ, w := uintWidth(name)
+	if typ == nil || w != n {
+		return nil, nil, nil, false
+	}
+	return hit, typ, order, true
 }
